@@ -24,9 +24,18 @@ After every call
     (the three above, lru cache sizes growing, lazily computed attributes written once, the clearable fields of
     the scratch validation context)                                          -> nothing else is residue.
 
-A difference between shared and fresh results is a failing input unless it matches a listed finding
-(`known_match`): C10-F2 = the model of the code as it is predicts the difference for that document after that
-history (the document is not self-sufficient); C10-F3 = a namespace was loaded on demand by a wildcard.
+  * every call of `maps.loader.load_namespace` (observed by a wrapper set on the loader OBJECT of the schema under
+    observation) and every top-level lookup (root; depth-level elements of lazy runs) is a step of the model:
+    which wildcard (element / attribute, processContents) met which namespace, whether the declaration lookup was
+    attempted and whether THIS call re-created the components are compared with the model's observations
+    (`Step.wild`, `Step.nsRead`); the attributes that reach `load_namespace` are compared with an independent port of
+    the attribute loop (XsdAttributeGroup.raw_decode / XsdAnyAttribute.raw_decode) evaluated at every element end;
+    the set of namespaces loaded on demand is part of the residue comparison, and so is the reset of the recorded
+    xsi:type uses by a rebuild                                                -> which lookups consult / extend the loaded set.
+
+A difference between shared and fresh results is a failing input unless it matches the listed finding C10-F3
+(`known_match`): the model of the code as it is predicts a differing observation for that call after that history
+AND the namespace lookups of both real runs are the ones the model describes.
 """
 from __future__ import annotations
 
@@ -52,11 +61,13 @@ TRUSTED = ['the steps of a call (element starts/ends with their declarations, us
            'declaration/type pair) is evaluated read-only with the library\'s own selector tokens on a separate fresh '
            'schema object; for lazy runs the counters at each element start/end are taken from the walk (setCtx steps)',
            'memo caches are modelled (theorems) and observed as sizes / write-once attributes by the fingerprint, their '
-           'values only through results; on-demand namespace loading (finding C10-F3) is outside the model']
-ASSUMPTIONS = ['guard selfSufficient of history_neutral_partial (decidable, evaluated by the driver for every call): an element '
-               'reachable through an xsi:type substitution occurs inside a constraint\'s scope only below an element '
-               'carrying that xsi:type; neutral_iff_selfSufficient proves the guard is exact for the model, documents '
-               'outside it are listed finding C10-F2']
+           'values only through results',
+           'namespace lookups are observed by a wrapper on the loader object (which wildcard called is read from the '
+           'caller\'s frame); that the rest of a call that loaded a namespace runs on the replaced components is modelled '
+           'by the `stale` flag (its writes are lost), the spurious errors it produces are observed through results only']
+ASSUMPTIONS = ['guard nsQuiet of history_neutral_partial (decidable, evaluated by the driver for every call): every namespace a '
+               'non-skip wildcard or a top-level lookup of the call meets is in the maps since the build or has no location; '
+               'neutral_iff_nsQuiet proves the guard is exact for the model, calls outside it are listed finding C10-F3']
 FINDINGS_FILE = VERIF / 'notes' / 'findings' / 'C10.json'
 XSI = 'http://www.w3.org/2001/XMLSchema-instance'
 XS = 'http://www.w3.org/2001/XMLSchema'
@@ -366,7 +377,11 @@ class Probe:
         if self.op == 'kbint' and self.started >= self.stop_at:
             raise KeyboardInterrupt()
         context = sys._getframe(1).f_locals.get('context')
-        self.events.append(('s', elem, xsd_element, self.snapshot(context) if context is not None else None))
+        tag = elem.tag
+        ens = tag[1:].split('}')[0] if tag[:1] == '{' else ''
+        self.events.append(('s', elem, xsd_element, self.snapshot(context) if context is not None else None,
+                            getattr(context, 'level', None), ens,
+                            ens in self.schema.maps.namespaces if self.schema is not None else None))
         return False
 
     @staticmethod
@@ -613,6 +628,9 @@ class Pool:
         from xmlschema.validators.identities import XsdKeyref, XsdIdentity
         steps: list = []
         real: list = []
+        if any(ev[0] == 'w' and ev[5] for ev in probe.events):
+            # the components were re-created during the call: its later events may show objects of both generations
+            idx = {**self.index(schema), **idx}
         if probe.root_ns is not None:
             steps.append(['r', self.ns(probe.root_ns)])
             real.append({'seen': bool(probe.root_seen)})
@@ -631,7 +649,11 @@ class Pool:
                 if is_attr:
                     real_attr.append((namespace, pc))
             elif ev[0] == 's':
-                _, elem, xe, before = ev
+                _, elem, xe, before, level, ens, ens_seen = ev
+                if lazy and level == 1 and ens_seen is not None:
+                    # a depth-level element of a lazy run: looked up in the maps as they are (schemas.py:1364)
+                    steps.append(['r', self.ns(ens)])
+                    real.append({'seen': bool(ens_seen)})
                 started.append(id(elem))
                 d = self.decl(idx, xe)
                 ids = [idx[id(i)] for i in xe.identities if id(i) in idx]
@@ -791,6 +813,7 @@ class PyModel:
                 obs.append({'ctx': [list(p) for p in ctx], 'gate': sorted({c for c, en in ctx if en})})
             elif s[0] == 'r':
                 obs.append({'seen': s[1] in sj['nsBase'] or s[1] in self.loaded})
+                stale = False
             elif s[0] == 'w':
                 if s[2] == 'skip':
                     continue
@@ -1144,7 +1167,10 @@ def run(ctx: Ctx, driver_ok: bool) -> None:
     for d1 in range(nd):
         for d2 in range(nd):
             op1 = ops2[(d1 + d2 + ctx.seed) % (4 if ctx.quick() else 6)]
-            run_history(ctx, 2, pools[2], [[op1, d1, 2], ['iter_errors', d2, 1], ['decode', d2, 1]], drv, 'ns-pairs')
+            h2 = [[op1, d1, 2], ['iter_errors', d2, 1]]
+            if not ctx.quick() or (d1 + d2 + ctx.seed) % 3 == 0:
+                h2.append(['decode', d2, 1])
+            run_history(ctx, 2, pools[2], h2, drv, 'ns-pairs')
     # calls aborted between two statements of the xsi:type block (KeyboardInterrupt from a trace function)
     for pi, di, follow in ((0, 0, 2), (0, 6, 0), (0, 17, 6), (0, 16, 2), (1, 6, 4)):
         for nth in range(1, ctx.pick(5, 9)):
@@ -1157,13 +1183,13 @@ def run(ctx: Ctx, driver_ok: bool) -> None:
         for d1 in range(len(pool.docs)):
             for d2 in range(len(pool.docs)):
                 for k, op1 in enumerate(first_ops):
-                    if ctx.quick() and (d1 * 7 + d2 * 3 + k) % 3 != ctx.seed % 3:
-                        continue           # a third of the (op, pair) grid per run in the quick tier (seeds 0,1,2: all)
+                    if ctx.quick() and (d1 * 7 + d2 * 3 + k) % 5 != ctx.seed % 5:
+                        continue           # a fifth of the (op, pair) grid per run in the quick tier (seeds 0..4: all)
                     run_history(ctx, pi, pool, [[op1, d1, 2], ['iter_errors', d2, 1], ['decode', d2, 1]], drv, 'pairs',
                                 deep=(d1 + d2 * 5 + k) % 23 == 0)
             if ctx.time_left() < 200:
                 break
-    n = ctx.pick(150, 500)
+    n = ctx.pick(110, 500)
     maxlen = ctx.pick(12, 40)
     for i in range(n):
         pi = ctx.rng.randrange(len(pools))
@@ -1176,7 +1202,7 @@ def run(ctx: Ctx, driver_ok: bool) -> None:
     ctx.extra['explanation'] = ('witness histories of the listed findings; calls aborted inside the xsi:type block; ordered pairs of '
                                 'pool documents (first call %s, then iter_errors and decode of the second%s) + %d seeded histories '
                                 'of length <= %d over %d operations; deep fingerprints on a sample'
-                                % (' / '.join(first_ops), ', a third of the grid chosen by the seed' if ctx.quick() else '', n, maxlen, len(OPS)))
+                                % (' / '.join(first_ops), ', a fifth of the grid chosen by the seed' if ctx.quick() else '', n, maxlen, len(OPS)))
 
 
 def search(ctx: Ctx) -> None:
